@@ -6,30 +6,40 @@ from lib import c02_util as U
 from rules import duke_common as D
 
 CLAIM = {
-    "text": "Decided for duke's class writer (simple_class_writer*, ClassWrite): (R02.1) for the class/field/method/record-component/Code headers, "
-            "the exception table, every attribute body the writer emits per location, annotations, the 13 element-value tags, type annotations "
-            "(22 target types), type paths, Module, BootstrapMethods and the 17 constant-pool entries, the sequence of primitive widths, "
-            "signedness, count widths, pool-entry kinds, label/flags kinds, checked string newtypes and tree fields written equals the "
-            "sequence the reader (class_reader*) consumes, and every count written is the length of the collection iterated; (R02.2) every "
-            "fixed-length attribute header is followed by exactly that many bytes and equals the JVMS length, every other attribute length is "
-            "measured from the bytes emitted; (R02.3) every attribute emission increments attribute_count exactly once and the count is "
-            "written as u16 after the last emission, directly before the buffered attributes; (R02.4) every field of the duke::tree structs "
-            "reachable from ClassFile is read by the writer and not only parked in a write-only local, every attribute the reader delivers at "
-            "a location has an emitter there; (R02.5) per Instruction variant the opcode(s) emitted decode back to that variant in the reader "
-            "and carry the reader's operand layout, the 16 if_helper call sites pass (opcode, JVMS negation), goto/jsr pass their _w forms, "
-            "the four emission paths of if_helper/goto_helper/switch_helper have the JVMS offset bases, trampoline skip = trampoline size, "
-            "placeholder position and width consistent with the recorded UnwrittenLabel, narrow forms only under i16::try_from = Ok; "
-            "(R02.6) the only restart path inserts into `wide`, resets the labels, replaces the code buffer and continues the attempt loop, "
-            "`wide` is never shrunk; (R02.7) two-slot entries are exactly {Long, Double}, the index is taken before a checked_add, tags and "
-            "payload widths equal the JVMS, PoolWrite::write consumes the pool, nothing reachable after bootstrap_methods.take() can add a "
-            "bootstrap method; (R02.9) ldc/ldc_w/ldc2_w, xload/xstore _n|u8|wide, ret, iinc boundary encodings, tableswitch/lookupswitch "
-            "pre-conditions, compute_signed_offset = target - position with that argument order at every call site.",
-    "note": "Not decided: that the offsets are numerically right after the fix-point terminates, termination of the fix-point, pool "
-            "de-duplication semantics, modified-UTF-8 encoding, that re-reading the output yields an equal tree (behavioural remainder); "
-            "narrowing casts / arithmetic overflow in the writer are C16's obligations. Trusted: rustc HIR/typeck/const-eval; "
-            "spec/jvms_tables.json; the reader as sibling oracle (its own tables are C01's).",
+    "text": "Decided for duke's class writer (simple_class_writer.rs, pool.rs, labels.rs, ClassWrite in lib.rs, get_arguments_size): "
+            "(R02.1) for the class/field/method/record-component/Code headers, the exception table, every attribute body the writer emits "
+            "per location (51 blocks), annotations, the 13 element-value tags, type annotations (22 target types incl. the 0xffff extends "
+            "marker), type paths, Module, BootstrapMethods and the 17 constant-pool entries, the sequence of primitive widths, signedness, "
+            "count widths, pool-entry kinds, label/flags kinds, checked string newtypes and tree / pool-entry fields written equals the "
+            "sequence the reader (class_reader*) consumes; every count written is the length of the collection iterated (or the matching "
+            "filtered count); each attribute block reads exactly the tree field that the reader's handling of that attribute name fills "
+            "through the tree builder; attribute names appear only at JVMS locations; ClassWrite primitives are big-endian, usize "
+            "conversions checked, strings modified-UTF-8; labels are registered at the first byte of their instruction and at the code "
+            "end; (R02.2) every fixed-length attribute header is followed by exactly that many bytes and equals the JVMS length, every "
+            "other attribute length is measured from the bytes emitted; (R02.3) every attribute emission shares its block with exactly "
+            "one `attribute_count += 1`, the counter starts at 0 and is written as u16 after the last emission, directly before the "
+            "buffered attributes; (R02.4) every field of the duke::tree structs reachable from ClassFile is read by the writer and not "
+            "only parked in a write-only local, every enum variant is matched, every attribute the reader delivers at a location has an "
+            "emitter there; (R02.5) per Instruction variant (at boundary operands) the opcode(s) emitted decode back to that variant and "
+            "implied local in the reader and carry the reader's operand layout; the 16 if_helper call sites pass (opcode, JVMS "
+            "negation), goto/jsr their _w forms; the emission paths of if_helper/goto_helper/switch_helper have the JVMS offset bases, "
+            "trampoline skip = trampoline size, recorded UnwrittenLabel position/width = what was reserved, narrow forms only under "
+            "i16::try_from = Ok; the fix-up loop patches i32 iff wide, i16 only when it fits, big-endian at the recorded position; switch "
+            "padding table; (R02.6) the only restart path inserts the instruction index into `wide`, resets every label map, replaces "
+            "the code buffer and continues the attempt loop itself; `wide` only grows; (R02.7) two-slot entries are exactly {Long, "
+            "Double}, index = count before a checked_add, count starts at 1, tags and payload widths = JVMS, every put_x/from_x builds the "
+            "JVMS entry from the right tree fields (incl. the 9 method-handle kinds), absent optional index = 0, PoolWrite::write consumes "
+            "the pool, nothing reachable after bootstrap_methods.take() can add a bootstrap method; (R02.9) ldc/ldc_w/ldc2_w, "
+            "x{load,store}_n|u8|wide, ret, iinc boundary encodings, tableswitch/lookupswitch pre-conditions and offset sources, "
+            "0 < code_length < 65536, invokeinterface count, compute_signed_offset = target - position, atype table.",
+    "note": "Not decided: that the offsets are numerically right after the fix-point terminates and termination itself, pool "
+            "de-duplication semantics (HashMap keyed by entry), the modified-UTF-8 codec, that re-reading the output yields an equal tree "
+            "(behavioural remainder); narrowing casts / arithmetic overflow in the writer are C16's obligations (DESIGN R02.8). Trusted: "
+            "rustc HIR/typeck/const-eval; spec/jvms_tables.json, spec/c02_pool_entries.json; the reader as sibling oracle (its own tables "
+            "are C01's).",
     "technique": "static analysis: wire-layout extraction from typed HIR on both sides + coinductive structural comparison, pattern-matrix "
-                 "partial evaluation of the encoder at boundary operands, block-level guard/count discipline, ADT field coverage, call-graph "
+                 "partial evaluation of the encoder / jump helpers / pool builders at boundary operands, block-level count discipline, ADT "
+                 "field coverage with write-only-sink detection, data-flow through the visitor into the tree builder, call-graph "
                  "reachability",
 }
 
@@ -87,8 +97,10 @@ def run(F, R, tier):
     r02_labels_prims(cx, R, S)
     r02_attr_sources(cx, R, S)
     r02_9_more(cx, R, S)
-    R.floor("R02.1", 150 + 15)
-    R.floor("R02.7", 17 + 17 + 17 + 8 + 60)
+    r02_misc(cx, R, S)
+    # floors = instance counts confirmed on the tree the rules were written against, minus a small slack (vacuity guard)
+    for rid, n in (("R02.1", 295), ("R02.2", 62), ("R02.3", 68), ("R02.4", 390), ("R02.5", 290), ("R02.6", 13), ("R02.7", 120), ("R02.9", 128)):
+        R.floor(rid, n)
     return ("A2 wire layouts extracted from the typed HIR of class_reader* and simple_class_writer* and compared structurally (headers, "
             "attributes per location, annotations, element values, type annotations, module, pool entries, per-opcode operands); fixed and "
             "measured attribute lengths; attribute_count discipline; A9 field/attribute coverage incl. write-only sinks; A5 encoder tables by "
@@ -323,6 +335,9 @@ def r02_1(cx, R, S):
             members_r = next((it["body"] for it in ri if it.get("i") == "withpos"), None)
             if R.anchor("R02.1", "member loops of class_reader::read", members_r is not None, sp=r_read["sp"]):
                 _cmp(cx, R, "header:class-members", members_r, full[cut:cut + 2], sp=w_write["sp"], queue=queue)
+            R.inst("R02.1", "header:class-shape", len(full) == cut + 4, sp=w_write["sp"], nontrivial=False,
+                   expect="magic, version, pool, access, this, super, interfaces, fields, methods, attribute count, attributes - nothing else",
+                   got=U.show(full[cut + 2:])[:200] if len(full) != cut + 4 else None)
     for loc, wn, rn in LOCS[1:]:
         rb, wb = cx.rfn(rn), cx.wfn(wn)
         if not R.anchor("R02.1", "fn %s / %s" % (rn, wn), rb and wb):
@@ -489,10 +504,12 @@ def r02_1(cx, R, S):
             wrep = next((it for it in wi if it.get("i") == "rep"), None)
             over = None
             if wrep is not None and wrep["node"].get("k") == "for":
-                root, path = H.place_root(wrep["node"]["iter"])
+                it = H.peel(wrep["node"]["iter"])
+                while it.get("k") == "mcall" and it["name"] in ("iter", "into_iter", "iter_mut") and not it["args"]:
+                    it = H.peel(it["recv"])
+                root, path = H.place_root(it)
                 over = path[-1] if path else None
             R.inst("R02.1", "pool:entries-in-order", over == "inner", sp=pw["sp"], expect="for entry in self.inner", got=over)
-    R.floor("R02.1", 150)
 
 
 def _arm_body(alt, tag):
@@ -546,6 +563,9 @@ def _len_root(ex, e, depth=0):
 
 
 def _place_key(e):
+    e = H.peel(e)
+    while e.get("k") == "mcall" and e["name"] in ("iter", "into_iter", "iter_mut") and not e["args"]:
+        e = H.peel(e["recv"])
     root, path = H.place_root(e)
     return (root[0] if root else None, tuple(p for p in path if not p.startswith(".")))
 
@@ -708,8 +728,6 @@ def r02_2_3(cx, R, S):
         late = [e for e in ems if id(e["node"]) in order and order.index(id(e["node"])) > cpos]
         R.inst("R02.3", "count-after-last-attribute:%s" % loc, cpos >= 0 and not late, sp=wb["sp"],
                got=[e["name"] for e in late] or None)
-    R.floor("R02.2", 15 + 15 + 30)
-    R.floor("R02.3", 5 * 4 + 50)
 
 
 def _len_key(ex, e):
@@ -881,7 +899,6 @@ def r02_4(cx, R, S):
             ok = name in emitted
             R.inst("R02.4", "attr:%s:%s%s" % (loc, nm, "" if ok else "=never-written"), ok, sp=wb["sp"],
                    detail=None if ok else "the reader delivers this attribute at this location, the writer has no emitter for it")
-    R.floor("R02.4", 60 + 200 + 50)
 
 
 class _Ex:
@@ -1278,8 +1295,6 @@ def r02_5_9(cx, R, S):
     _switch_checks(cx, R, S, wc, m)
     _offset_fn(cx, R, S)
     _atype(cx, R, S)
-    R.floor("R02.5", 200 + 18 + 20)
-    R.floor("R02.9", 64 + 4 + 7 + 24 + 5 + 8)
 
 
 def _helper_args(fb, op1, op2):
@@ -1639,9 +1654,26 @@ def _offset_fn(cx, R, S):
         ok = bool(H.local_of(l) and H.local_of(r) and H.local_of(l)[0] == ids[1] and H.local_of(r)[0] == ids[0]) and fb["output"] == "i32" and \
             all("i32" in (x.get("ty") or "") for x in (e["l"], e["r"]))
     R.inst("R02.9", "compute_signed_offset=target-position", ok, sp=fb["sp"], expect="(target as i32) - (opcode_pos as i32)", got=H.render(e))
-    n = sum(1 for b in cx.duke.bodies if b["key"].startswith(W) for x in H.walk(b["body"]) if x.get("k") == "call" and H.callee_name(x) == "compute_signed_offset")
-    R.inst("R02.9", "compute_signed_offset:call-sites-evaluated", n == 5, got=n, expect=5, nontrivial=False,
-           detail="if_helper x2, goto_helper, switch_helper, fix-up loop: each evaluated with (position, target) in R02.5; a new call site needs a rule")
+    # every call site passes (a position, the resolved target of a label) in that order
+    n = 0
+    for b in cx.duke.bodies:
+        if not b["key"].startswith(W) or b["dk"] not in ("Fn", "AssocFn"):
+            continue
+        k = 0
+        for x in H.walk(b["body"]):
+            if x.get("k") == "call" and H.callee_name(x) == "compute_signed_offset" and len(x["args"]) == 2:
+                k += 1
+                n += 1
+                def from_labels(e):
+                    l = H.local_of(e)
+                    if not l:
+                        return False
+                    path, init = U._pattern_source(_Ex(b), l[0])
+                    return init is not None and any(y.get("k") == "mcall" and y["name"] in ("get", "try_get") and
+                                                    "Labels" in ((y.get("callee") or {}).get("impl_ty") or "") for y in H.walk(init))
+                R.inst("R02.9", "compute_signed_offset:args:%s#%d" % (b["name"], k), from_labels(x["args"][1]) and not from_labels(x["args"][0]), sp=x["sp"],
+                       expect="(position of the instruction, offset of the label looked up in `labels`)", got=[H.render(a) for a in x["args"]])
+    R.inst("R02.9", "compute_signed_offset:call-sites", n >= 5, got=n, expect=">= 5", nontrivial=False)
 
 
 def _atype(cx, R, S):
@@ -1783,7 +1815,6 @@ def r02_6(cx, R, S):
                 if path:
                     reset.add(path[-1])
         R.inst("R02.6", "next_attempt:resets-all-maps", bool(fields) and set(fields) == reset, sp=na["sp"], expect=sorted(fields), got=sorted(reset))
-    R.floor("R02.6", 12)
 
 
 # ===================================================================================================== R02.7
@@ -1966,7 +1997,6 @@ def r02_7(cx, R, S):
                               H.local_of(x["recv"]) and H.local_of(lens[0]["recv"]) and H.local_of(x["recv"])[0] == H.local_of(lens[0]["recv"])[0]]
                     ok = len(pushes) == 1 and order2.index(id(n)) < order2.index(id(pushes[0]))
         R.inst("R02.7", "bootstrap:index=checked-position", ok, sp=pbm["sp"], expect="index = vec.len() converted with a checked try_into before the push")
-    R.floor("R02.7", 17 + 17 + 17 + 8)
 
 
 # ===================================================================================================== pool entry construction (part of R02.7)
@@ -2506,3 +2536,59 @@ def r02_9_more(cx, R, S):
             got = (t_inc, e_inc, arr_in_else)
             ok = t_inc == [2] and e_inc == [1] and arr_in_else and not arr_before
         R.inst("R02.9", "argsize:D/J=2,others=1,arrays=1", ok, sp=gas["sp"], expect="+2 when the parameter starts with D or J, otherwise (after skipping `[`) +1", got=got)
+
+
+def r02_misc(cx, R, S):
+    duke = cx.duke
+    # ---- switch padding of the writer (the reader's table is R01.11)
+    al = cx.wfn("align_to_4_byte_boundary")
+    if R.anchor("R02.5", "fn simple_class_writer::align_to_4_byte_boundary", al):
+        ms = D.int_matches(al["body"], 3)
+        if R.anchor("R02.5", "match in the writer's align_to_4_byte_boundary", len(ms) == 1, sp=al["sp"]):
+            sc = H.peel(ms[0]["scrut"], refs=False)
+            pid = H.pat_bindings(al["params"][0])[0][0]
+            masked = sc.get("k") == "bin" and sc["op"] == "&" and H.const_value(sc["r"]) == 3
+            l = H.peel(sc["l"], casts=True) if masked else {}
+            on_len = l.get("k") == "mcall" and l["name"] == "len" and H.local_of(l["recv"]) and H.local_of(l["recv"])[0] == pid
+            R.inst("R02.5", "align:position=len&3", bool(masked and on_len), sp=al["sp"], expect="writer.len() & 0b11 (the code buffer starts at bytecode offset 0)",
+                   got=H.render(sc))
+            for k, pad in S["align4_padding"].items():
+                ev = EvalW(scrut_override={id(ms[0]): ("i", int(k))})
+                try:
+                    ev.match(ms[0], {})
+                except (T.Return, T.Break):
+                    pass
+                n = 0
+                zero = True
+                for (nm, v, node) in ev.writes:
+                    a = H.peel(node["args"][0]) if nm == "write_u8_slice" else None
+                    if a is not None and a.get("k") == "array":
+                        n += len(a["es"])
+                        zero = zero and all(H.const_value(x) == 0 for x in a["es"])
+                    elif nm == "write_u8":
+                        n += 1
+                        zero = zero and v == ("i", 0)
+                    else:
+                        n += 100
+                R.inst("R02.5", "align-padding:%s" % k, n == pad and zero, sp=al["sp"], expect="%d zero byte(s)" % pad, got=n)
+    # ---- string bytes are modified UTF-8 on both sides
+    def uses(fnbody, name):
+        return [n for n in H.walk(fnbody["body"]) if n.get("k") == "call" and H.callee_name(n) == name]
+    pr = duke.fn("read", impl_ty="class_reader::pool::PoolRead")
+    pw = duke.fn("write", impl_ty="simple_class_writer::pool::PoolWrite")
+    rr, ww = cx.rfn("read"), cx.wfn("write")
+    if pr and pw and rr and ww:
+        for key, rb, wb in (("pool:Utf8", pr, pw), ("attr:class:SourceDebugExtension", rr, ww)):
+            ex, lays = cx.lay(wb, "w")
+            dec = uses(rb, "from_vec_to_string")
+            enc = uses(wb, "from_string_to_vec")
+            # the encoded vector is what gets written
+            good = False
+            for c_ in enc:
+                for n in H.walk(wb["body"]):
+                    if n.get("k") == "let" and n.get("init") is not None and any(x is c_ for x in H.walk(n["init"])) and n["pat"].get("k") == "bind":
+                        vid = n["pat"]["id"]
+                        good = good or any(x.get("k") == "mcall" and x["name"] == "write_u8_slice" and H.local_of(x["args"][0]) and H.local_of(x["args"][0])[0] == vid
+                                           for x in H.walk(wb["body"]))
+            R.inst("R02.1", "bytes-encoding:%s=modified-utf8" % key, len(dec) == 1 and len(enc) == 1 and good, sp=wb["sp"],
+                   expect="reader: jstring::from_vec_to_string, writer: the bytes of jstring::from_string_to_vec", got=(len(dec), len(enc), good))
